@@ -157,6 +157,7 @@ prop('C05', [
     optab.r_optab_bdd,
     optab.r_vocab,
     handles.r_parser,
+    models.r_to_expr,
 ],
     'the lexer is reconstructed from the source (regex docstrings, PLY '
     'ordering rule) and every spelling of every operator rule and every '
@@ -453,7 +454,9 @@ MODEL_TEXT = {
            'truth tables.',
     'C05': ' Models: the shared translator bound to the manager of each '
            'call and reset after it; identifiers that begin with a '
-           'keyword probed through the source-level lexer.',
+           'keyword probed through the source-level lexer; `to_expr` of '
+           'every reference of two managers read back by an evaluator '
+           'of the documented syntax.',
     'C06': ' Models: `incref` / `decref`, `find_or_add` (count zero, one '
            'reference per edge); `collect_garbage` on managers that hold '
            'garbage, for every choice of referenced functions, with and '
